@@ -62,7 +62,7 @@ def finish(prop, pd, tier, seed, results, wall, write_baseline=False):
                     assumptions.append(x)
             und = list(r.get("undecided", []))
             ok = not und
-            if not r["obligations"]:
+            if not r["obligations"] and not und:
                 errors.append("%s: zero obligations generated (vacuity guard)" % uname)
                 ok = False
             if r.get("covers", 0) == 0 and not und:
